@@ -13,19 +13,20 @@ import (
 
 // Cfg selects the universe and the templates.
 type Cfg struct {
-	Root      string   // directory all generated absolute paths live under, e.g. "/w"
-	Names     []string // component names
-	Depth     int      // maximum depth below Root
-	Symlinks  bool     // Symlink / Readlink / EvalSymlinks templates
-	Links     bool     // Link templates
-	Owners    bool     // Chown / Lchown templates
-	Temps     bool     // CreateTemp / MkdirTemp templates
-	Chdir     bool     // Chdir + relative paths
-	Specials  bool     // "/", ".", ".." operands
-	EmptyPath bool     // "" as operand (not a lexically clean path: Clean("") is ".")
-	Unclean   bool     // unclean spellings
-	Handles   bool     // leave handles open (Create/OpenFile into slots) and use File ops
-	Walk      bool
+	Root         string   // directory all generated absolute paths live under, e.g. "/w"
+	Names        []string // component names
+	Depth        int      // maximum depth below Root
+	Symlinks     bool     // Symlink / Readlink / EvalSymlinks templates
+	Links        bool     // Link templates
+	Owners       bool     // Chown / Lchown templates
+	Temps        bool     // CreateTemp / MkdirTemp templates
+	Chdir        bool     // Chdir + relative paths
+	Specials     bool     // "/", ".", ".." operands
+	EmptyPath    bool     // "" as operand (not a lexically clean path: Clean("") is ".")
+	Unclean      bool     // unclean spellings
+	Handles      bool     // leave handles open (Create/OpenFile into slots) and use File ops
+	Walk         bool
+	ReadOnlyOpen bool // FileOp opens files with O_RDONLY only
 	// AvoidRootOps: never use "/" as operand of Remove/RemoveAll/Rename/Link destination (sequentially unsafe on the pinned tree).
 	AvoidRootOps bool
 }
@@ -50,7 +51,7 @@ func New(c Cfg, r *rand.Rand) *G {
 			return
 		}
 		for _, n := range c.Names {
-			rec(p+"/"+n, d+1)
+			rec(join(p, n), d+1)
 		}
 	}
 	rec(c.Root, 0)
@@ -61,11 +62,18 @@ func New(c Cfg, r *rand.Rand) *G {
 func (g *G) Observe(recs []fsx.Rec, cwd string) {
 	g.Exist = g.Exist[:0]
 	for _, r := range recs {
-		if r.Path == g.Root || strings.HasPrefix(r.Path, g.Root+"/") {
+		if r.Path == g.Root || strings.HasPrefix(r.Path, strings.TrimSuffix(g.Root, "/")+"/") {
 			g.Exist = append(g.Exist, r)
 		}
 	}
 	g.Cwd = cwd
+}
+
+func join(dir, name string) string {
+	if strings.HasSuffix(dir, "/") {
+		return dir + name
+	}
+	return dir + "/" + name
 }
 
 func (g *G) pick(ss []string) string { return ss[g.R.IntN(len(ss))] }
@@ -102,11 +110,11 @@ func (g *G) Path() string {
 		if e, ok := g.existing(isDir); ok {
 			d = e
 		}
-		p = d + "/" + g.pick(g.Names)
+		p = join(d, g.pick(g.Names))
 	case x < 86:
 		// below something that is not a directory, or two levels of missing
 		if e, ok := g.existing(nil); ok {
-			p = e + "/" + g.pick(g.Names)
+			p = join(e, g.pick(g.Names))
 			if g.R.IntN(2) == 0 {
 				p += "/" + g.pick(g.Names)
 			}
@@ -273,7 +281,57 @@ func (g *G) safe(p string) bool {
 	return p != "/" && p != "" && p != "." && p != ".." && !strings.HasPrefix(p, "/.") && p != "//" && !strings.HasPrefix(p, "../")
 }
 
+// FileOp draws a call on one of the handle slots 0..2 (or an OpenFile that fills a slot).
+func (g *G) FileOp() fsx.Op {
+	h := g.R.IntN(3)
+	offs := []int64{-2, -1, 0, 1, 2, 5, 9, 17, 40, 1 << 20}
+	lens := []int64{0, 1, 2, 5, 16, 64}
+	switch x := g.R.IntN(100); {
+	case x < 14:
+		fl := g.pick2(openFlagSets)
+		if g.ReadOnlyOpen {
+			fl = 0
+		}
+		return fsx.Op{K: "OpenFile", P: g.Path(), Flag: fl, Perm: filePerms[g.R.IntN(len(filePerms))], H: h}
+	case x < 26:
+		return fsx.Op{K: "F.Read", H: h, N: lens[g.R.IntN(len(lens))]}
+	case x < 34:
+		return fsx.Op{K: "F.ReadAt", H: h, N: lens[g.R.IntN(len(lens))], M: offs[g.R.IntN(len(offs)-1)]}
+	case x < 46:
+		return fsx.Op{K: "F.Write", H: h, Data: g.Data()}
+	case x < 52:
+		return fsx.Op{K: "F.WriteAt", H: h, Data: g.Data(), N: offs[g.R.IntN(len(offs)-1)]}
+	case x < 56:
+		return fsx.Op{K: "F.WriteString", H: h, Data: g.Data()}
+	case x < 66:
+		return fsx.Op{K: "F.Seek", H: h, N: offs[g.R.IntN(len(offs)-1)], M: int64(g.R.IntN(3))}
+	case x < 72:
+		return fsx.Op{K: "F.Truncate", H: h, N: offs[g.R.IntN(len(offs)-1)]}
+	case x < 78:
+		return fsx.Op{K: "F.Stat", H: h}
+	case x < 81:
+		return fsx.Op{K: "F.Sync", H: h}
+	case x < 84:
+		return fsx.Op{K: "F.Chmod", H: h, Perm: filePerms[g.R.IntN(len(filePerms))]}
+	case x < 86:
+		return fsx.Op{K: "F.Chown", H: h, N: ids[g.R.IntN(3)], M: ids[g.R.IntN(3)]}
+	case x < 90:
+		return fsx.Op{K: "F.ReadDir", H: h, N: int64(g.R.IntN(4) - 1)}
+	case x < 93:
+		return fsx.Op{K: "F.Readdirnames", H: h, N: int64(g.R.IntN(4) - 1)}
+	case x < 94:
+		return fsx.Op{K: "F.Chdir", H: h}
+	case x < 95:
+		return fsx.Op{K: "F.Name", H: h}
+	default:
+		return fsx.Op{K: "F.Close", H: h}
+	}
+}
+
 func (g *G) try() (fsx.Op, bool) {
+	if g.Handles && g.R.IntN(3) == 0 {
+		return g.FileOp(), true
+	}
 	x := g.R.IntN(1000)
 	switch {
 	case x < 110:
